@@ -3,6 +3,7 @@ package rules
 import (
 	"fmt"
 	"go/ast"
+	"regexp"
 	"strings"
 
 	"verif/checker/internal/core"
@@ -15,7 +16,7 @@ func init() {
 		ID:          "C15",
 		Explanation: "Decided: (keyfor) in $newType every comparable kind installs a keyFor and exactly func/map/slice are marked non-comparable, arrays and structs inherit comparability from their parts; (inject) composite keys escape the escape character and then the separator of every sub-key before joining with that separator, 64-bit/complex keys join numbers, interface keys are discriminated by type identity (no display string reaches a key function); (ops) map literal, index, store and delete compute T.keyFor with the map's key type, entries are {k, v} on both sides, nil-map read/len/range/write arms exist. (contexts, shared with C07) keys and values are copied into the map on store and in map literals — a stored array or struct key that aliases the caller's variable changes under the map. NOT decided: behaviour over operation histories, range-with-deletion, float key formatting.",
 		Assumptions: []string{"String(number) never contains '$' or '\\\\'", "JavaScript Map preserves insertion order and compares string keys by value"},
-		Rules:       []RuleFunc{ruleC15Keyfor, ruleC15Inject, ruleC15Ops, ruleC09ID, ruleC07Contexts, ruleC15KeyConverted, ruleStructComparable, ruleBlankFields},
+		Rules:       []RuleFunc{ruleC15Keyfor, ruleC15Inject, ruleC15Ops, ruleC09ID, ruleC07Contexts, ruleC15KeyConverted, ruleStructComparable, ruleBlankFields, ruleC15NaNKeys},
 	})
 }
 
@@ -183,7 +184,12 @@ func ruleC15Inject(c *ctx.Ctx, r *core.Reporter) {
 				if cal.Is("MemberExpression") && cal.MemberName() == "call" && strings.HasSuffix(strings.ReplaceAll(cal.N("object").Src(), " ", ""), "prototype.join") && len(args) == 2 {
 					sep, _ = args[1].StrValue()
 				}
-				if cal.IdentName() == "$mapArray" && len(args) == 2 && args[1].IsFunc() {
+				isMap := cal.IdentName() == "$mapArray" && len(args) == 2 && args[1].IsFunc()
+				// Array.prototype.map.call(x, cb)
+				if cal.Is("MemberExpression") && cal.MemberName() == "call" && strings.HasSuffix(strings.ReplaceAll(cal.N("object").Src(), " ", ""), "prototype.map") && len(args) == 2 && args[1].IsFunc() {
+					isMap = true
+				}
+				if isMap {
 					// the callback's returned expression is the escaped sub-key
 					args[1].Walk(func(m *ctx.JSNode) bool {
 						if m.Is("ReturnStatement") && subKey == nil {
@@ -236,7 +242,7 @@ func ruleC15Inject(c *ctx.Ctx, r *core.Reporter) {
 		if strings.Contains(k, "Complex") {
 			a, b = "x.$real", "x.$imag"
 		}
-		ok := strings.Contains(src, a+`+"$"+`+b)
+		ok := strings.Contains(src, a+`+"$"+`+b) || strings.Contains(src, "$floatKey("+a+`)+"$"+$floatKey(`+b+")")
 		r.Check(ok, "inject:"+k, as.Pos(), fmt.Sprintf("the key joins the two numeric components %s and %s with a separator numbers cannot contain", a, b))
 	}
 	if arm := arms["$kindString"]; arm != nil {
@@ -335,17 +341,54 @@ func ruleC15Ops(c *ctx.Ctx, r *core.Reporter) {
 		if strings.Contains(s, ".size : 0") {
 			lenT = true
 		}
-		if strings.Contains(s, ".keys() : undefined") {
-			rangeT = true
-		}
 		if strings.Contains(s, `$throwRuntimeError("assignment to entry in nil map")`) && strings.Contains(s, "||") {
 			storeT = true
 		}
 	}
 	r.Check(lenT, "nilmap:len", "compiler/expressions.go", "len of a nil map is 0 (`m ? m.size : 0`)")
-	r.Check(rangeT, "nilmap:range", "compiler/statements.go", "range over a nil map iterates nothing (`m ? m.keys() : undefined` with size 0)")
+	// range over a map: every template of the Map arm of the range statement that calls into the Map object
+	// (keys/values/entries/size) is guarded by the reference itself: `<m> ? <m>.… : <nothing>`
+	nRange := 0
+	rangeT = true
+	for _, t := range usableTemplates(c) {
+		if t.Func != "funcContext.translateStmt" || !strings.Contains(strings.Join(t.CasePath, "/"), "type:*ast.RangeStmt/type:*types.Map") {
+			continue
+		}
+		for _, m := range []string{".keys()", ".values()", ".entries()", ".size"} {
+			if !strings.Contains(t.Text, m) {
+				continue
+			}
+			nRange++
+			mm := nilGuardRe.FindStringSubmatch(t.Text)
+			args := t.FmtArgs()
+			ok := false
+			if mm != nil {
+				var a, b int
+				fmt.Sscanf(mm[1], "%d", &a)
+				fmt.Sscanf(mm[2], "%d", &b)
+				ok = a < len(args) && b < len(args) && exprStr(args[a]) == exprStr(args[b])
+			}
+			if !ok {
+				rangeT = false
+			}
+		}
+	}
+	r.Check(rangeT && nRange >= 1, "nilmap:range", "compiler/statements.go", fmt.Sprintf("range over a nil map iterates nothing: each of the %d reads of the Map object set up before the loop is guarded `<m> ? <m>.… : …`", nRange))
+	// every iteration looks the entry up again and skips a key that has been deleted in the meantime
+	// (Go spec: "If a map entry that has not yet been reached is removed during iteration, the corresponding
+	// iteration value will not be produced"; a value assigned during iteration is the one produced)
+	if ts := c.FuncDecl("compiler", "funcContext.translateStmt"); ts != nil {
+		live := false
+		for _, m := range findGoPattern(ts.Body, `µfc.Printf("%s = %s.get(%s);", µe, µref, µk); µfc.translateStmt(&ast.IfStmt{Cond: µfc.newIdent(µe+" === undefined", µt), Body: &ast.BlockStmt{List: []ast.Stmt{&ast.BranchStmt{Tok: token.CONTINUE}}}}, nil)`) {
+			_ = m
+			live = true
+		}
+		r.Check(live, "range:live-entries", c.Pos(ts.Pos()), "each iteration of a range over a map fetches the entry of the next key from the map (`<e> = <m>.get(<key>)`) and continues with the next key when it is gone: entries deleted before they are reached are not produced, values overwritten before they are reached are produced as overwritten")
+	}
 	r.Check(storeT, "nilmap:store", "compiler/statements.go", "assignment to an entry of a nil map throws the run-time error")
 }
+
+var nilGuardRe = regexp.MustCompile(`⟨(\d+)⟩ \? (?:\[\.\.\.)?⟨(\d+)⟩\.(?:keys\(\)|values\(\)|entries\(\)|size)`)
 
 // keyTypeExpr: e is fc.typeName(X.Key()) or fc.typeName(v) with v := X.Key() / X.(*types.Map).Key()
 func keyTypeExpr(fd *ast.FuncDecl, e ast.Expr) bool {
